@@ -123,6 +123,14 @@ def eval_parse(case):
 CORE = ['\x1b', '[', '1', ';', 'm', 'A']
 
 
+def enum_finals(tier):
+    """every final byte 0x40-0x7E (and its two neighbours) in a few fixed frames"""
+    for c in range(0x3f, 0x80):
+        ch = chr(c)
+        for frame in ('a\x1b[1;2%sb', '\x1b[%s', '\x1b[%s\x1b[0%sx', 'a\x1b[%s'):
+            yield {'s': frame.replace('%s', ch)}
+
+
 def enum_core(tier):
     maxlen = 5 if tier == 'quick' else 7
     for L in range(0, maxlen + 1):
@@ -130,7 +138,7 @@ def enum_core(tier):
             yield {'s': ''.join(t)}
 
 
-ALPHA = ['\x1b', '[', '0', '1', ';', '?', ' ', 'm', 'A', 'H', 'J', '~', '@', 'x', 'é', '\n', '\x1b[', '\x1b[']
+ALPHA = ['\x1b', '[', '0', '1', ';', '?', ' ', 'm', 'A', 'H', 'J', '~', '@', 'x', 'é', '\n', '\x1b[', '\x1b[', '{', '}', '|', '`', '\\', '%']
 
 
 def strat_free():
@@ -139,7 +147,7 @@ def strat_free():
 
 def strat_tokens():
     body = st.text(alphabet='0123456789;:?<=> !"', max_size=8)
-    final = st.sampled_from(list('mmmAHJK~@[x_'))
+    final = st.sampled_from(list('mmmAHJK~@[x_{}|`\\^'))
     tok = st.one_of(
         st.text(alphabet='ab[\x1bm1;é\n ', max_size=5),
         st.tuples(body, final).map(lambda t: '\x1b[' + t[0] + t[1]),
@@ -216,6 +224,7 @@ def strat_long():
 
 
 SUBS = [
+    Sub('all_final_bytes', eval_parse, enumerate=enum_finals, exhaustive_note='every final byte 0x40-0x7E and both neighbours in four frames'),
     Sub('parse_long_params', eval_parse, strategy=strat_long, quick=300, thorough=4000,
         rule='control sequences whose parameter string is 20-400 characters long'),
     Sub('parse_core_exhaustive', eval_parse, enumerate=enum_core,
